@@ -45,6 +45,7 @@ def check(repo, res, tier):
     _rows(repo, res, bl)
     _columns(repo, res, bl)
     _wire(repo, res, bl)
+    _ctor(repo, res, bl)
     _broadcast(repo, res, bl)
     _kv(repo, res, bl)
 
@@ -250,6 +251,110 @@ def _wire(repo, res, bl):
               "BaseLoss.__init__ does not derive _weight from state_weight and _spread_param from spread_param")
     ok = any(isinstance(m, ast.Assign) and any(is_self_attr(t, "_lossObj") for t in m.targets) and norm(m.value) == "self._setLossType()" for m in walk_no_nested(init.node))
     res.check(ok, "R-WIRE", init, "kernel-built", "the kernel is built by the (overridden) _setLossType()", "BaseLoss.__init__ does not call self._setLossType()")
+
+
+def _ctor(repo, res, bl, rule="R-KV"):
+    """abstract execution of BaseLoss.__init__: whatever order the caller names observed states, target parameters and
+    target states in is the order stored, and data column j stays paired with the j-th observed name"""
+    from ..core.symarr import SymArr, np_summaries
+    from ..core import algebra as A
+    init = bl.methods["__init__"]
+    model_states = ["S", "I", "R"]
+    n = 3
+    sol_fn = repo.func(M.M_UTILS + ".checks_and_conversions", "str_or_list")
+    cases = []
+    for sn in (["R", "I"], ["I", "R"], ("R", "S"), "I", ["S", "I", "R"], ["R", "S", "I"], None):
+        cases.append((sn, None, None))
+    cases += [(["R", "I"], ["c", "a"], None), (["I", "R"], ["a", "c"], ["R", "S"]), ("R", "b", "I"), (["R", "I"], ["b"], ["I", "S"])]
+    n_ok = 0
+    for sn, tp, ts in cases:
+        names = model_states if sn is None else [sn] if isinstance(sn, str) else list(sn)
+        p_ = len(names)
+        tag = "ctor(state_name=%r,target_param=%r,target_state=%r)" % (sn, tp, ts)
+        y = SymArr((n, p_), [A.sym("y_%s[%d]" % (names[j], i)) for i in range(n) for j in range(p_)])
+        if p_ == 1:
+            y = y.reshape((n,))
+        t = SymArr.symbols("t", (n,))
+        t0, x0, theta = A.sym("t0"), SymArr.symbols("x0", (3,)), SymArr.symbols("theta", (3,))
+        calls = {}
+        summ = np_summaries()
+
+        def rec(name, ret=None):
+            def fn(me_, *a, **k):
+                calls.setdefault(name, []).append(a)
+                return ret
+            return fn
+        summ.update({
+            "ode_utils.check_array_type": lambda x, *a, **k: x if isinstance(x, SymArr) else SymArr.of(x),
+            "Model.integrate2": lambda m_, tt: SymArr.symbols("sol", (n, 3)),
+            "Model._iterStateList": lambda m_: list(model_states),
+            "Model.get_state_index": lambda m_, s_: ([model_states.index(s_)] if isinstance(s_, str) else [model_states.index(str(q)) for q in list(s_)]),
+            "Model.get_param_index": lambda m_, s_: (["a", "b", "c"].index(str(s_)) if isinstance(s_, str) else [["a", "b", "c"].index(str(q)) for q in s_]),
+            "Model._iterParamList": lambda m_: ["a", "b", "c"], "Model.param_list": lambda m_: ["a", "b", "c"],
+            "Loss._setWeight_or_spread": rec("weight", Tok("W")), "Loss._setParam": rec("setParam"), "Loss._setX0": rec("setX0"),
+            "Loss._setLossType": rec("lossType", Tok("lossObj")),
+            "InputError": lambda *a: Tok("InputError"), "RuntimeError": lambda *a: Tok("RuntimeError"), "AssertionError": lambda *a: Tok("AssertionError"),
+        })
+
+        def str_or_list(x, _f=sol_fn):
+            kind, v = Abs({}, {}, {}, None).run_function(_f.node, {_f.params[0]: x})
+            if kind == "raise":
+                raise Raised(v)
+            return v
+        summ["ode_utils.str_or_list"] = str_or_list
+        ode = Obj("Model", parameters=Tok("params"), num_param=3, num_state=3)
+        me = Obj("Loss")
+        args = {"theta": theta, "ode": ode, "x0": x0, "t0": t0, "t": t, "y": y, "state_name": sn, "state_weight": None, "spread_param": None,
+                "target_param": tp, "target_state": ts}
+        try:
+            kind, out = Abs({}, {}, summ, me).run_function(init.node, args)
+        except Undecided as e:
+            res.undecided(rule, init, tag, "outside the modelled subset: %s" % e)
+            continue
+        if kind == "raise":
+            res.violated(rule, init, tag, "a valid construction raises %s" % (out,), node=init.node)
+            continue
+        problems = []
+        got = me.attrs.get("_stateName")
+        if list(got if isinstance(got, (list, tuple)) else [got]) != names:
+            problems.append("_stateName is %r, the caller's order is %r" % (got, names))
+        gi = me.attrs.get("_stateIndex")
+        want_i = [model_states.index(q) for q in names]
+        if list(gi if isinstance(gi, (list, tuple)) else [gi]) != want_i:
+            problems.append("_stateIndex is %r, expected %r" % (gi, want_i))
+        ydat = me.attrs.get("_y")
+        if not isinstance(ydat, SymArr) or ydat.size != n * p_:
+            problems.append("_y is %r" % (ydat,))
+        else:
+            y2 = ydat.reshape((n, p_)) if ydat.ndim == 1 else ydat
+            for i in range(n):
+                for j in range(p_):
+                    w_ = A.sym("y_%s[%d]" % (names[j], i))
+                    if not (y2.at((i, j)) == w_):
+                        problems.append("data entry [%d,%d] is %r: column %d is no longer the data of %r" % (i, j, y2.at((i, j)), j, names[j]))
+                        break
+                else:
+                    continue
+                break
+        for attr, given in (("_targetParam", tp), ("_targetState", ts)):
+            g = me.attrs.get(attr)
+            w_ = None if given is None else [given] if isinstance(given, str) else list(given)
+            if (g is None) != (w_ is None) or (w_ is not None and list(g) != w_):
+                problems.append("%s is %r, the caller gave %r" % (attr, g, given))
+        tt = me.attrs.get("_t")
+        if not (isinstance(tt, SymArr) and tt.size == n + 1 and tt.flat[0] == t0 and all(a_ == b_ for a_, b_ in zip(tt.flat[1:], t.flat))):
+            problems.append("_t is %r, expected [t0, t...]" % (tt,))
+        ot = me.attrs.get("_observeT")
+        if not (isinstance(ot, SymArr) and ot.same(t)):
+            problems.append("_observeT is %r" % (ot,))
+        if [a_[0] for a_ in calls.get("setParam", [])] != [theta] and not (calls.get("setParam") and calls["setParam"][0][0] is theta):
+            problems.append("_setParam called with %r" % (calls.get("setParam"),))
+        if not (calls.get("setX0") and calls["setX0"][0][0] is x0):
+            problems.append("_setX0 called with %r" % (calls.get("setX0"),))
+        n_ok += not problems
+        res.check(not problems, rule, init, tag, "names, indices and data columns are stored in the caller's order",
+                  "; ".join(problems[:2]) + ": values and data are matched to these names by position, so the loss compares the wrong quantities", node=init.node)
+    return n_ok
 
 
 def _broadcast(repo, res, bl):
